@@ -22,6 +22,9 @@ func init() {
 			{ID: "C13.R4", Doc: "Slice and the typed slices visit every element in order without filtering beyond their kind (= C14 on the Slice family)", Run: func(c *Ctx) {
 				c.R.Floor("C13.R4", runAs(c, "C13.R4", c14Run, func(o *Obligation) bool { return strings.Contains(o.Construct, "Slice") }), 3)
 			}},
+			{ID: "C13.R6", Doc: "From-constructors store every entry of every flavour through the conversion (nil entries of []Object/[]List/map[string]Object/… become the nil kind, not a raw nil field that native() dereferences) (= C12.R2)", Run: func(c *Ctx) {
+				c.R.Floor("C13.R6", runAs(c, "C13.R6", c12R2, nil), 14)
+			}},
 			{ID: "C13.R5", Doc: "what is stored is the value that was given: parseVal maps every Go type to the constructor of its kind through value-preserving conversions, and the constructors wrap their argument unchanged (= C12.R1)", Run: func(c *Ctx) { c.R.Floor("C13.R5", runAs(c, "C13.R5", c12R1, nil), 10) }},
 			{ID: "C13.R3", Doc: "no aliasing by typing and origin: struct shapes, FRESH Go-typed results, element-wise From-constructors", Run: func(c *Ctx) {
 				structShapeRule(c, "C13.R3")
